@@ -1,6 +1,7 @@
 package main
 
 import (
+	"bytes"
 	"io"
 	"math/rand"
 	"reflect"
@@ -189,6 +190,11 @@ func cmdRoute(o opts) {
 			}
 		}
 	}
+	njobs := 8000
+	if o.tier == "thorough" {
+		njobs = 40000
+	}
+	fixConcurrent(rec, vecs, drw, dl, njobs)
 	rec.Close()
 }
 
@@ -217,12 +223,19 @@ func fixOne(rec *Rec, r *rand.Rand, v routeVec, drw *dialect.ReadWriter, dl []in
 		for range node.Events() {
 		}
 	}()
+	if rcd := fixWith(node, outKey, keyJ, r, v, drw, dl, edit); rcd != nil {
+		rec.Put(rcd)
+	}
+}
 
+// fixWith: one received frame edited, fixed by the node and written on; returns the FIX record (nil if the vector is not
+// readable).
+func fixWith(node *gomavlib.Node, outKey *frame.V2Key, keyJ B, r *rand.Rand, v routeVec, drw *dialect.ReadWriter, dl []int, edit string) M {
 	rd := &frame.Reader{ByteReader: &chunkReader{data: v.Bytes, limit: len(v.Bytes), err: io.EOF}, DialectRW: drw}
 	rd.Initialize()
 	fr, err := rd.Read()
 	if err != nil {
-		return
+		return nil
 	}
 	// edit: every numeric field gets a new value, strings get a new text ("all"); nothing ("none": the frame still has
 	// to leave valid under the outgoing key); only the signature link id and timestamp ("sigfields")
@@ -297,7 +310,78 @@ func fixOne(rec *Rec, r *rand.Rand, v routeVec, drw *dialect.ReadWriter, dl []in
 			rcd[k] = map[string]interface{}{"fix_ok": false, "out": B{}, "next_accepted": false}[k]
 		}
 	}
-	rec.Put(rcd)
+	return rcd
+}
+
+// fixConcurrent: a router with a pool of workers - four goroutines edit, fix (one shared node) and forward frames of
+// different message types at the same time. Every job is deterministic (its own seeded edits, no key), so the whole pool
+// is first run one job after the other; the concurrent pass must give the same bytes. A few records of the concurrent
+// pass are always judged by the monitor, and every job whose bytes differ from the sequential pass is.
+func fixConcurrent(rec *Rec, vecs []routeVec, drw *dialect.ReadWriter, dl []int, jobs int) {
+	var canon []routeVec
+	seen := map[int]bool{}
+	for _, v := range vecs {
+		if (v.Var == "canon" || v.Var == "v1") && !seen[v.D] {
+			seen[v.D] = true
+			canon = append(canon, v)
+		}
+	}
+	if len(canon) < 2 {
+		return
+	}
+	node := &gomavlib.Node{
+		Endpoints:        []gomavlib.EndpointConf{gomavlib.EndpointCustom{ReadWriteCloser: newBlockRWC()}},
+		Dialect:          findDialect("all"),
+		OutVersion:       gomavlib.V2,
+		OutSystemID:      10,
+		HeartbeatDisable: true,
+	}
+	if err := node.Initialize(); err != nil {
+		fatal("node: %v", err)
+	}
+	defer node.Close()
+	go func() {
+		for range node.Events() {
+		}
+	}()
+	const workers = 4
+	job := func(w, i int) M {
+		v := canon[(w+i)%len(canon)]
+		return fixWith(node, nil, B{}, rand.New(rand.NewSource(int64(w*1000003+i))), v, drw, dl, "all")
+	}
+	solo := make([][]M, workers)
+	for w := 0; w < workers; w++ {
+		solo[w] = make([]M, jobs)
+		for i := 0; i < jobs; i++ {
+			solo[w][i] = job(w, i)
+		}
+	}
+	conc := make([][]M, workers)
+	var wg sync.WaitGroup
+	for w := 0; w < workers; w++ {
+		conc[w] = make([]M, jobs)
+		wg.Add(1)
+		go func(w int) {
+			defer wg.Done()
+			for i := 0; i < jobs; i++ {
+				conc[w][i] = job(w, i)
+			}
+		}(w)
+	}
+	wg.Wait()
+	for w := 0; w < workers; w++ {
+		for i := 0; i < jobs; i++ {
+			a, b := solo[w][i], conc[w][i]
+			if a == nil || b == nil {
+				continue
+			}
+			same := bytes.Equal(a["out"].(B), b["out"].(B)) && a["fix_ok"] == b["fix_ok"] && a["next_accepted"] == b["next_accepted"] && a["panic"] == b["panic"]
+			if i < 3 || !same {
+				b["var"] = b["var"].(string) + "_worker_pool"
+				rec.Put(b)
+			}
+		}
+	}
 }
 
 func min2(a, b int) int {
